@@ -4,7 +4,9 @@ mod dump;
 mod keys;
 mod keytab;
 mod overrides;
+mod paired;
 mod parseprobe;
+mod seqtab;
 mod sim;
 mod switchtv;
 mod zippy;
@@ -104,6 +106,10 @@ fn run_script(
                     } else {
                         flush!();
                         let mut line = json!({"e":"t","n":1,"out":out,"idle":idle,"cb":cb});
+                        if sim.last_nt != 1 {
+                            // tick_states executed by this tick_ms(1) call (dynamic macro replay with recorded delays)
+                            line["nt"] = json!(sim.last_nt);
+                        }
                         if want_proj {
                             line["proj"] = sim.proj(cap);
                         }
@@ -340,8 +346,10 @@ fn main() {
         "c11-tables" => keytab::cmd_tables(rest),
         "c11-parse" => keytab::cmd_parse(rest),
         "switch-tv" => switchtv::cmd(rest),
+        "seq-tables" => seqtab::cmd(rest),
         "cfgeq" => cfgeq::cmd(rest),
         "crash" => crash::cmd_crash(rest),
+        "paired" => paired::cmd_paired(rest),
         "parse-probe" => parseprobe::cmd_parse_probe(rest),
         "lex-enum" => parseprobe::cmd_lex_enum(rest),
         "sexpr-tree" => parseprobe::cmd_sexpr_tree(rest),
